@@ -28,7 +28,7 @@ ASSUMPTIONS = ['numerically solved dispersion/trace orders are compared to 1e-6 
 PLAN = {'quick': {'gen': 8}, 'thorough': {'gen': 16, 'tests': 1}}
 REQUIRED_BUCKETS = ['tilt:subpixel', 'tilt:pixels', 'tilt:beyond-output', 'du:aniso', 'du:iso', 'os>1', 'segmented',
                     'rep:ramp', 'rep:plane', 'rep:wavefront', 'rep:fit', 'multi-tilt', 'scan', 'disp:propagated', 'sequence', 'disp:order1', 'disp:order>1',
-                    'refit-after-update', 'refit-segmented', 'fit:flat-segments', 'fit:fill-outside-mask', 'opd:not-c-contiguous']
+                    'refit-after-update', 'refit-segmented', 'fit:flat-segments', 'fit:fill-outside-mask', 'opd:not-c-contiguous', 'fit:array-dtypes']
 REQUIRED_ANCHORS = ['anchor:Tilt.shift', 'anchor:Field.shift', 'anchor:fit_tilt', 'anchor:ptt_vector',
                     'anchor:DispersiveTilt.shift', 'probe:propagate_dft']
 REQUIRED_ORACLES = ['rep=model', 'fit=lstsq', 'fit:opd+tilt', 'shift:additive', 'shift:order', 'shift:signs',
@@ -411,7 +411,18 @@ def workload(ctx, lentil):
         desc = {'fit_tilt': list(shape), 'segments': len(segs), 'seg3d': bool(seg), 'dx': list(dxs),
                 'opd': probe.fp_array(opd)[:10]}
         ctx.case(desc, ['segmented'] if len(segs) > 1 else [])
-        pl = lentil.Pupil(amplitude=amp, opd=_lay(ctx, rng, opd.copy()), mask=(segs.astype(float) if seg else A.astype(float)),
+        opd_arg, mdt, adt = opd.copy(), float, float
+        if i % 5 == 2 and i % 4 != 1:
+            # maps, masks and amplitudes in the precisions other parts of a pipeline deliver: single and extended precision OPD maps
+            # (the numbers are kept), masks / amplitudes as extended or single precision, boolean or 8-bit arrays
+            odt = [np.float32, np.longdouble, float, np.longdouble][(i // 5) % 4]
+            opd_arg = opd.astype(odt)
+            opd = opd_arg.astype(float)
+            mdt = [np.longdouble, np.float32, bool, np.uint8][(i // 5) % 4]
+            adt = [float, np.longdouble, np.float32, float][(i // 5) % 4]
+            ctx.bucket('fit:array-dtypes')
+            desc = dict(desc, dtypes=[np.dtype(odt).name, np.dtype(mdt).name, np.dtype(adt).name])
+        pl = lentil.Pupil(amplitude=amp.astype(adt), opd=_lay(ctx, rng, opd_arg), mask=(segs.astype(mdt) if seg else A.astype(mdt)),
                           pixelscale=dxs, focal_length=1.0)
         inplace = bool(rng.random() < 0.5)
         try:
@@ -438,7 +449,7 @@ def workload(ctx, lentil):
             sc = max(abs(sol[1]), abs(sol[2]), oglob / (min(dxs) * max(shape)))
             ctx.close('fit=lstsq', np.array([rx, ry]), np.array([sol[1], sol[2]]), 1e-8, 'fit|angles',
                       'recorded angles are not the least-squares tip/tilt of the segment', dict(desc, seg=k), scale=sc)
-            after = np.asarray(q.opd)
+            after = np.asarray(q.opd, dtype=float)
             rec = ramp(shape, dxs, rx, ry)
             osc = max(float(np.max(np.abs(opd[sg]))), oglob)
             ctx.close('fit:opd+tilt', (after + rec)[sg], opd[sg], 1e-10, 'fit|opd+tilt',
